@@ -36,6 +36,8 @@ SKIP_PROPS = {'string0', 'string1', 'string2'}
 
 
 def norm(v: Any) -> Any:
+    if isinstance(v, int) and not isinstance(v, bool):
+        v = decimal.Decimal(v)   # an int written as a number is that number
     if isinstance(v, base.RawModel):
         return ('model', type(v).__name__, O.print_text(v))
     if isinstance(v, decimal.Decimal):
@@ -46,8 +48,9 @@ def norm(v: Any) -> Any:
 def eqv(a: Any, b: Any) -> bool:
     if isinstance(a, base.RawModel) or isinstance(b, base.RawModel):
         return isinstance(a, base.RawModel) and isinstance(b, base.RawModel) and type(a) is type(b) and O.print_text(a) == O.print_text(b)
-    if isinstance(a, decimal.Decimal) and isinstance(b, decimal.Decimal):
-        return a == b
+    num = lambda x: isinstance(x, decimal.Decimal) or (isinstance(x, int) and not isinstance(x, bool))  # noqa: E731
+    if num(a) and num(b):
+        return a == b   # an int written as a number reads back as that number (a Decimal after re-parsing)
     return type(a) == type(b) and a == b
 
 
